@@ -144,6 +144,8 @@ func execLineInner(line string) (reply string) {
 		if e := recover(); e != nil {
 			if _, ok := e.(runtime.Error); ok {
 				reply = "panic runtime"
+			} else if s, ok := e.(string); ok && s == "verif: hook unavailable" {
+				reply = "hook-missing" // an optional in-package hook could not be compiled against this tree (see build-harness)
 			} else {
 				reply = "panic doc"
 			}
